@@ -41,6 +41,7 @@ struct Run : ContBase {
     FILE *devnull = nullptr;
     std::string tmpfile;
     int nt = 0, removed_in_walk = 0, sort_moved_equal = 0, loads = 0;
+    int nt_refused = 0;
 
     Run(Src &s_, Ctx &c_, bool scr, bool ret) : ContBase(s_, c_, scr, ret, "listtbl") {}
     ~Run() { if (t) qlisttbl_free(t); if (devnull) fclose(devnull); if (!tmpfile.empty()) unlink(tmpfile.c_str()); }
@@ -97,6 +98,27 @@ struct Run : ContBase {
         seei(ok);
         if (!ok) c.fail(FUNC, "listtbl:put-failed", "put(%s) returned false, errno=%d", hexs(k).c_str(), errno);
         m.put(e);
+    }
+    // calls the library documents as refused (EINVAL): they must fail, say so, and change nothing -
+    // the complete comparison with the model follows as after every operation
+    void do_refused(const std::string &k) {
+        int kind = (int)s.range(0, 4);
+        Buf *kb = Buf::cstr(k); std::string v = gen_val(false, 20); Buf vb(v);
+        size_t have = m.lookup(&k).size();
+        errno = poison; bool ok; const char *what;
+        switch (kind) {
+            case 0: ok = qlisttbl_put(t, kb->c(), nullptr, vb.n); what = "put(key, NULL data, n)"; break;
+            case 1: ok = qlisttbl_put(t, kb->c(), vb.p, 0); what = "put(key, data, size 0)"; break;
+            case 2: ok = qlisttbl_putstr(t, kb->c(), nullptr); what = "putstr(key, NULL)"; break;
+            case 3: ok = qlisttbl_put(t, nullptr, vb.p, vb.n); what = "put(NULL name, data, n)"; break;
+            default: { size_t sz = 0; ok = qlisttbl_get(t, nullptr, &sz, s.boolean()) != nullptr; what = "get(NULL name)"; }
+        }
+        int e = errno;
+        delete kb;
+        c.op("refused call %s, key %s [%zu equal key(s) present]", what, hexs(k, 10).c_str(), have);
+        if (ok) c.fail(FUNC, "listtbl:invalid-accepted", "%s succeeded, documented EINVAL", what);
+        if (e != EINVAL) c.fail(FUNC, "listtbl:invalid-errno", "%s: errno=%d, documented EINVAL", what, e);
+        if (have) nt_refused++;
     }
     void do_get(const std::string &k) {
         std::vector<size_t> hits = m.lookup(&k);
@@ -240,7 +262,7 @@ struct Run : ContBase {
         if (!t) c.fail(FUNC, "listtbl:ctor", "qlisttbl() returned NULL");
         int maxops = c.tier ? 1500 : 300, ops = 0;
         while (!s.exhausted() && ops++ < maxops) {
-            int o = (int)s.pick({30, 10, 8, 8, 10, 2, 5, 1, 1, loadable_case ? 6 : 0, 2, 2});
+            int o = (int)s.pick({30, 10, 8, 8, 10, 2, 5, 1, 1, loadable_case ? 6 : 0, 2, 2, 3});
             const char *what = "op";
             switch (o) {
                 case 0: do_put(gen_key()); what = "put"; break;
@@ -253,6 +275,7 @@ struct Run : ContBase {
                 case 7: qlisttbl_clear(t); c.op("clear()"); note_outlived(); m.v.clear(); verify_kept(false); what = "clear"; break;
                 case 8: { if (!devnull) devnull = fopen("/dev/null", "w"); bool ok = qlisttbl_debug(t, devnull); c.op("debug()"); if (!ok) c.fail(FUNC, "listtbl:debug", "debug() returned false"); what = "debug"; break; }
                 case 9: do_saveload(); what = "save/load"; break;
+                case 12: do_refused(gen_key()); what = "refused call"; break;
                 case 11: { // burst: many entries under one key (getmulti array growth boundaries 10, 20, 40)
                     std::string k = gen_key(); long n = s.pick({1, 1, 1, 1}) == 0 ? 10 : s.pick({1, 1}) == 0 ? s.range(8, 12) : s.range(18, 42);
                     size_t have = m.lookup(&k).size(); if (!m.o.unique && have < (size_t)n && s.boolean()) n -= (long)have;
@@ -272,6 +295,7 @@ struct Run : ContBase {
         leak_verdict("qlisttbl_free");
         c.tag(strf("options_%02d", ob).c_str());
         if (loads) c.tag("case_with_save_load");
+        if (nt_refused) c.tag("case_with_refused_call_on_present_key");
         if (removed_in_walk) c.tag("case_with_removal_in_walk"); if (sort_moved_equal) c.tag("case_with_sort_moving_equal_keys");
         if (c.mode == "C08") c.nontrivial = nt > 0;
         else if (c.mode == "C11") c.nontrivial = removed_in_walk > 0 && nonempty;
